@@ -17,15 +17,15 @@ def check(repo, rep, tier):
     rep.minimum('meta-call builtins registered (+call)', len(other), 5)
     funcs = rd.closure_in_engine(em, other)
     funcs = [f for f in funcs if f not in rd.closure_in_engine(em, db) or f in other]
-    rd.rule_deref_before_inspection(em, rep, 'C09.D1', other)
-    rd.rule_total_dispatch(em, rep, 'C09.D2', funcs)
-    rq.rule_no_engine_exception(em, rep, 'C09.D3', other)
-    rd.rule_no_stopiteration_leak(em, rep, 'C09.S1')
-    rd.rule_one_goal_resolver(em, rep, 'C09.M1')
-    rd.rule_call_argument_order(em, rep, 'C09.M2')
-    rd.rule_findall_shape(em, rep, 'C09.M3')
-    rd.rule_neq(em, rep, 'C09.M4')
-    rx.rule_derived_tables_follow(em, rep, 'C09.M5')
-    rx.rule_lookups_agree(em, rep, 'C09.M6')
+    rep.run(rd.rule_deref_before_inspection, em, rep, 'C09.D1', other)
+    rep.run(rd.rule_total_dispatch, em, rep, 'C09.D2', funcs)
+    rep.run(rq.rule_no_engine_exception, em, rep, 'C09.D3', other)
+    rep.run(rd.rule_no_stopiteration_leak, em, rep, 'C09.S1')
+    rep.run(rd.rule_one_goal_resolver, em, rep, 'C09.M1')
+    rep.run(rd.rule_call_argument_order, em, rep, 'C09.M2')
+    rep.run(rd.rule_findall_shape, em, rep, 'C09.M3')
+    rep.run(rd.rule_neq, em, rep, 'C09.M4')
+    rep.run(rx.rule_derived_tables_follow, em, rep, 'C09.M5')
+    rep.run(rx.rule_lookups_agree, em, rep, 'C09.M6')
     from .. import rules_state as rs
-    rs.rule_deref_closure(em, rep, 'C09.M7')
+    rep.run(rs.rule_deref_closure, em, rep, 'C09.M7')
